@@ -6,6 +6,7 @@ import NutsModel.C05.Forms
 import NutsModel.C05.Today
 import NutsModel.Facts.C05
 import NutsProofs.Lemmas.C05Forms
+import NutsProofs.Props.C05
 
 namespace Nuts.C05.Props
 open Nuts.C05
@@ -42,6 +43,123 @@ theorem fact_form_sources :
    "Description: fmt.Sprintf(\"grant_type '%s' is not supported\", request.Body.GrantType),",
    "}",
    "}",
+   "}"] ∧
+    Facts.C05.src_RequestJWTByGet =
+  ["{",
+   "ro := new(jarRequest)",
+   "err := r.authzRequestObjectStore().GetAndDelete(request.Id, ro)",
+   "if err != nil {",
+   "return nil, oauth.OAuth2Error{",
+   "Code: oauth.InvalidRequest,",
+   "Description: \"request object not found\",",
+   "}",
+   "}",
+   "expected := r.subjectToBaseURL(request.SubjectID)",
+   "if ro.Client != expected.String() {",
+   "return nil, oauth.OAuth2Error{",
+   "Code: oauth.InvalidRequest,",
+   "Description: \"client_id does not match request\",",
+   "}",
+   "}",
+   "if ro.RequestURIMethod != \"get\" {",
+   "return nil, oauth.OAuth2Error{",
+   "Code: oauth.InvalidRequest,",
+   "Description: \"used request_uri_method 'get' on a 'post' request_uri\",",
+   "InternalError: errors.New(\"wrong 'request_uri_method' authorization server or wallet probably does not support 'request_uri_method'\"),",
+   "}",
+   "}",
+   "token, err := r.jar.Sign(ctx, ro.Claims)",
+   "if err != nil {",
+   "return nil, oauth.OAuth2Error{",
+   "Code: oauth.ServerError,",
+   "Description: \"unable to create Request Object\",",
+   "InternalError: fmt.Errorf(\"failed to sign authorization Request Object: %w\", err),",
+   "}",
+   "}",
+   "return RequestJWTByGet200ApplicationoauthAuthzReqJwtResponse{",
+   "Body: bytes.NewReader([]byte(token)),",
+   "ContentLength: int64(len(token)),",
+   "}, nil",
+   "}"] ∧
+    Facts.C05.src_RequestJWTByPost =
+  ["{",
+   "ro := new(jarRequest)",
+   "err := r.authzRequestObjectStore().GetAndDelete(request.Id, ro)",
+   "if err != nil {",
+   "return nil, oauth.OAuth2Error{",
+   "Code: oauth.InvalidRequest,",
+   "Description: \"request object not found\",",
+   "}",
+   "}",
+   "expected := r.subjectToBaseURL(request.SubjectID)",
+   "if ro.Client != expected.String() {",
+   "return nil, oauth.OAuth2Error{",
+   "Code: oauth.InvalidRequest,",
+   "Description: \"client_id does not match request\",",
+   "}",
+   "}",
+   "if ro.RequestURIMethod != \"post\" {",
+   "return nil, oauth.OAuth2Error{",
+   "Code: oauth.InvalidRequest,",
+   "Description: \"used request_uri_method 'post' on a 'get' request_uri\",",
+   "}",
+   "}",
+   "walletMetadata := staticAuthorizationServerMetadata()",
+   "if request.Body != nil {",
+   "if request.Body.WalletMetadata != nil {",
+   "walletMetadata = *request.Body.WalletMetadata",
+   "}",
+   "if request.Body.WalletNonce != nil {",
+   "ro.Claims[oauth.WalletNonceParam] = *request.Body.WalletNonce",
+   "}",
+   "}",
+   "if walletMetadata.Issuer != \"https://self-issued.me/v2\" {",
+   "ro.Claims[jwt.AudienceKey] = walletMetadata.Issuer",
+   "}",
+   "token, err := r.jar.Sign(ctx, ro.Claims)",
+   "if err != nil {",
+   "return nil, oauth.OAuth2Error{",
+   "Code: oauth.ServerError,",
+   "Description: \"unable to create Request Object\",",
+   "InternalError: fmt.Errorf(\"failed to sign authorization Request Object: %w\", err),",
+   "}",
+   "}",
+   "return RequestJWTByPost200ApplicationoauthAuthzReqJwtResponse{",
+   "Body: bytes.NewReader([]byte(token)),",
+   "ContentLength: int64(len(token)),",
+   "}, nil",
+   "}"] ∧
+    Facts.C05.src_ValidateDPoPProof =
+  ["{",
+   "dpopToken, err := dpop.Parse(request.Body.DpopProof)",
+   "if err != nil {",
+   "reason := fmt.Sprintf(\"failed to parse DPoP header: %s\", err.Error())",
+   "return ValidateDPoPProof200JSONResponse{Reason: &reason}, nil",
+   "}",
+   "if ok, err := dpopToken.Match(request.Body.Thumbprint, request.Body.Method, request.Body.Url); !ok {",
+   "reason := err.Error()",
+   "return ValidateDPoPProof200JSONResponse{Reason: &reason}, nil",
+   "}",
+   "ath, ok := dpopToken.Token.Get(dpop.ATHKey)",
+   "if !ok {",
+   "reason := \"missing ath claim\"",
+   "return ValidateDPoPProof200JSONResponse{Reason: &reason}, nil",
+   "}",
+   "hash := nutsHash.SHA256Sum([]byte(request.Body.Token))",
+   "if ath != base64.RawURLEncoding.EncodeToString(hash.Slice()) {",
+   "reason := \"ath/token claim mismatch\"",
+   "return ValidateDPoPProof200JSONResponse{Reason: &reason}, nil",
+   "}",
+   "fresh, err := r.useNonceOnceStore().PutIfAbsent(dpopToken.Token.JwtID(), struct{}{})",
+   "if err != nil {",
+   "log.Logger().WithError(err).Error(\"ValidateDPoPProof: failed to store jti usage state\")",
+   "return nil, err",
+   "}",
+   "if !fresh {",
+   "reason := \"jti already used\"",
+   "return ValidateDPoPProof200JSONResponse{Reason: &reason}, nil",
+   "}",
+   "return ValidateDPoPProof200JSONResponse{Valid: true}, nil",
    "}"] ∧
     Facts.C05.src_dpopFromRequest =
   ["{",
@@ -132,6 +250,19 @@ theorem fact_form_sources :
    "return nil, oauthError(oauth.ServerError, fmt.Sprintf(\"failed to create access token: %s\", err.Error()))",
    "}",
    "return HandleTokenRequest200JSONResponse(*response), nil",
+   "}"] ∧
+    Facts.C05.src_handleUserLanding =
+  ["{",
+   "token := echoCtx.QueryParam(\"token\")",
+   "if token == \"\" {",
+   "log.Logger().Debug(\"missing token\")",
+   "return echoCtx.NoContent(http.StatusForbidden)",
+   "}",
+   "redirectSession := RedirectSession{}",
+   "err := r.userRedirectStore().GetAndDelete(token, &redirectSession)",
+   "if err != nil {",
+   "log.Logger().Debug(\"token not found in store\")",
+   "return echoCtx.NoContent(http.StatusForbidden)",
    "}"] ∧
     Facts.C05.src_responsePrefix =
   ["{",
@@ -252,7 +383,7 @@ theorem fact_form_sources :
    "}",
    "return nil",
    "}"] := by
-  refine ⟨rfl, rfl, rfl, rfl, rfl, rfl, rfl, rfl, rfl, rfl, rfl⟩
+  refine ⟨rfl, rfl, rfl, rfl, rfl, rfl, rfl, rfl, rfl, rfl, rfl, rfl, rfl, rfl, rfl⟩
 
 set_option maxRecDepth 8000 in
 /-- the data the model consumes: grant-type switch, required vp_token parameters, PKCE methods, error codes and the
@@ -267,9 +398,11 @@ theorem fact_form_tables :
     Facts.C05.errs_dpopFromRequest = [("InvalidDPopProof", "DPoP header is invalid")] ∧
     Facts.C05.errs_validatePresentationNonce = [("InvalidRequest", "invalid or missing nonce/challenge in presentation"), ("InvalidRequest", "invalid or expired session"), ("InvalidRequest", "invalid nonce/state")] ∧
     Facts.C05.errs_validateS2SPresentationNonce = [("InvalidRequest", "presentation has invalid/missing nonce"), ("InvalidRequest", "presentation nonce has already been used")] ∧
+    Facts.C05.errs_RequestJWTByGet = [("InvalidRequest", "request object not found"), ("InvalidRequest", "client_id does not match request"), ("InvalidRequest", "used request_uri_method 'get' on a 'post' request_uri"), ("ServerError", "unable to create Request Object")] ∧
+    Facts.C05.errs_RequestJWTByPost = [("InvalidRequest", "request object not found"), ("InvalidRequest", "client_id does not match request"), ("InvalidRequest", "used request_uri_method 'post' on a 'get' request_uri"), ("ServerError", "unable to create Request Object")] ∧
     Facts.C05.errs_handleAuthorizeResponseSubmission.take 5 = [("InvalidRequest", "missing state"), ("InvalidRequest", "missing vp_token"), ("InvalidRequest", "invalid vp_token"), ("InvalidRequest", "invalid or expired session"), ("InvalidRequest", "incorrect tenant")] ∧
     (∀ c ∈ ["InvalidRequest", "InvalidGrant", "UnsupportedGrantType", "InvalidDPopProof"], (alGet Facts.C05.oauthErrorCodes c).isSome) := by
-  refine ⟨by decide, by decide, by decide, by decide, by decide, by decide, by decide, by decide, by decide, by decide, by decide⟩
+  refine ⟨by decide, by decide, by decide, by decide, by decide, by decide, by decide, by decide, by decide, by decide, by decide, by decide, by decide⟩
 
 /-! ### Property theorems: sequences of requests at the real endpoints' level (all request contents, all histories, any
     amount of time between requests, both back-end expiry conventions) -/
@@ -323,6 +456,17 @@ example :
     (validateNonce ⟨true, 0, todayTTL⟩ st [p1, p2] "s").2 = [] := by
   decide
 
+/-- **The nonce check passes only for a common nonce**: every presentation of the response carries one and the same non-empty
+    nonce (JWT claim, LD challenge, or LD nonce as fallback), that nonce is stored and alive, and it is stored for the state the
+    response names — for every list of presentations, every store. -/
+theorem vp_nonce_accepted_only_if_common (c : Sq) (st : Store) (ps : List Pres) (state : String)
+    (h : (validateNonce c st ps state).1 = .ok) :
+    ∃ n, n ≠ "" ∧ (∀ p ∈ ps, presNonce p = n) ∧ stGet c.incl st c.now (vpKey n) = some state :=
+  validateNonce_ok c st ps state h
+
+example : (validateNonce ⟨true, 0, todayTTL⟩ [(vpKey "n1", ⟨"s", 60⟩)]
+    [{ fmt := .ld, challenge := "n1" }, { fmt := .ld, nonce := "n1" }, { fmt := .jwt, jwtNonce := "n1" }] "s").1 = .ok := by decide
+
 /-- a request the token endpoint does not dispatch to a handler (unknown, differently-cased or not-implemented grant type;
     vp_token grant with a required parameter missing) leaves the session store untouched -/
 theorem refused_grant_touches_nothing (c : Sq) (pk : Pkce) (st : Store) (f : TokenForm)
@@ -347,5 +491,133 @@ theorem refused_grant_touches_nothing (c : Sq) (pk : Pkce) (st : Store) (f : Tok
 
 example : grantAction "Authorization_Code" ≠ "handleAccessTokenRequest" ∧ grantAction "authorization_code" = "handleAccessTokenRequest" ∧
     grantAction "vp_token-bearer" = "handleS2SAccessTokenRequest" ∧ grantAction "*" = "error:UnsupportedGrantType" := by decide
+
+/-! ### Refinement of the request level to the thread level, and the end-to-end corollary -/
+
+/-- today's GetAndDelete holds the database mutex, on every back-end (regenerated fact `gadShape`) -/
+theorem today_gad_locked (strict incl : Bool) : (today strict incl).gad = .locked := by
+  show Facts.C05.gadShape = .locked
+  decide
+
+/-- **Refinement**: `handleAccessTokenRequest`, mirrored statement by statement (parameter checks, deferred Delete, GetAndDelete,
+    client_id comparison, PKCE, DPoP header), answers and leaves the store exactly as the thread `TokenForm.toBurn` of the
+    abstract layer does when it runs alone (lock, Get, Delete, unlock, deferred Delete) under today's configuration on any
+    back-end — for every request, every store and every instant.  The thread model's `pre / want / post` are thereby the
+    handler's own checks, and the theorems over ALL schedules of the thread model speak about this handler. -/
+theorem handleCode_refines_thread (strict incl : Bool) (ttl : Kind → Nat) (pk : Pkce) (now : Nat) (st : Store) (f : TokenForm) (r : BurnReq)
+    (hr : f.toBurn pk = some r) :
+    ((run (today strict incl) soloSched { store := st, now := now, lock := none, ths := [.burn r .start 0] }).ths[0]?.bind Thread.outcome)
+        = codeOutcome (handleCode ⟨incl, now, ttl⟩ pk st f).1 ∧
+    (run (today strict incl) soloSched { store := st, now := now, lock := none, ths := [.burn r .start 0] }).store
+        = (handleCode ⟨incl, now, ttl⟩ pk st f).2 := by
+  have hprops : r.kind = .code ∧ r.failGet = false ∧ r.failDel = false := by
+    unfold TokenForm.toBurn at hr
+    cases hc : f.code with
+    | none => simp [hc] at hr
+    | some code => simp only [hc, Option.some.injEq] at hr; subst hr; exact ⟨rfl, rfl, rfl⟩
+  have h1 := solo_code_run (today strict incl) (today_gad_locked strict incl) rfl r hprops.1 hprops.2.1 hprops.2.2 st now
+  have h2 : codeOutcome (handleCode ⟨incl, now, ttl⟩ pk st f).1 = some (soloOutcome (today strict incl) st now r).1 ∧
+      (handleCode ⟨incl, now, ttl⟩ pk st f).2 = (soloOutcome (today strict incl) st now r).2 :=
+    handleCode_eq_solo (today strict incl) ttl pk now st f r hr
+  exact ⟨by rw [h1.1, h2.1], by rw [h1.2.1, h2.2]⟩
+
+/-- non-vacuity: an honest request against a live code; both sides answer `ok` and erase the code -/
+example :
+    let pk : Pkce := ⟨"S256", fun v => v == "v"⟩
+    let f : TokenForm := { grantType := "authorization_code", code := some "c1", codeVerifier := some "v", clientId := some "clientA" }
+    let st : Store := [(codeKey "c1", ⟨"clientA", 60⟩)]
+    f.toBurn pk = some { kind := .code, id := "c1", want := "clientA" } ∧ handleCode ⟨true, 0, todayTTL⟩ pk st f = (.ok, []) := by
+  decide
+
+/-- the threads a list of token requests stands for (requests without `code` never reach the store) -/
+def compileForms (pk : Pkce) (fs : List TokenForm) : List Req := fs.filterMap (fun f => (f.toBurn pk).map Req.burn)
+
+/-- **End to end** (request contents → decision, all interleavings): any number of authorization-code token requests with any
+    contents, started in any order and interleaved in EVERY way at the granularity of single store calls, with clock ticks
+    anywhere, on any back-end: at most one of them is honoured per code.  Composition of `handleCode_refines_thread`
+    (each thread is its handler) with `at_most_one_success_atomic` and today's facts. -/
+theorem token_endpoint_at_most_once_all_schedules (strict incl : Bool) (pk : Pkce) (st : Store) (fs : List TokenForm)
+    (sched : List Ev) (code : String) :
+    successes (run (today strict incl) sched (init st (compileForms pk fs))) (codeKey code) ≤ 1 :=
+  at_most_one_success_atomic (today strict incl) (Or.inr (Or.inl (today_gad_locked strict incl))) st _ sched (codeKey code) .code rfl
+
+/-! ### the vp_token-bearer grant: the nonce loop over ALL presentations of the envelope -/
+
+/-- an envelope is accepted by the nonce loop only if its nonces are pairwise different, none is missing and none was
+    registered before — and then every one of them is registered -/
+theorem s2s_envelope_accepted_only_if_all_fresh (c : Sq) (httl : 0 < c.ttl (.mark .s2s)) (st : Store) (ns : List String)
+    (h : (s2sLoop c st ns).1 = .ok) :
+    ns.Nodup ∧ (∀ n ∈ ns, n ≠ "" ∧ stGet c.incl st c.now (s2sKey n) = none) ∧
+    (∀ n ∈ ns, stGet c.incl (s2sLoop c st ns).2 c.now (s2sKey n) ≠ none) :=
+  s2sLoop_ok c httl ns st h
+
+/-- **No replay inside the nonce TTL, at envelope level, through any history**: once an envelope was accepted, any envelope
+    that contains ANY of its nonces (at any position, among any other nonces) is refused as long as less than the TTL has
+    passed — whatever token requests and authorization responses were served in between. -/
+theorem s2s_nonce_no_replay_within_ttl (incl : Bool) (ttl : Kind → Nat) (pk : Pkce) (now : Nat) (st : Store)
+    (ns : List String) (n : String) (hn : n ∈ ns) (httl : 0 < ttl (.mark .s2s))
+    (hok : (s2sLoop ⟨incl, now, ttl⟩ st ns).1 = .ok)
+    (later : List (Nat × Form)) (dt : Nat) (ns2 : List String) (hn2 : n ∈ ns2)
+    (hwin : (runForms incl ttl pk now (s2sLoop ⟨incl, now, ttl⟩ st ns).2 later).2.2 + dt < now + ttl (.mark .s2s)) :
+    (s2sLoop ⟨incl, (runForms incl ttl pk now (s2sLoop ⟨incl, now, ttl⟩ st ns).2 later).2.2 + dt, ttl⟩
+        (runForms incl ttl pk now (s2sLoop ⟨incl, now, ttl⟩ st ns).2 later).2.1 ns2).1 ≠ .ok := by
+  obtain ⟨e, hfind, hexp⟩ := s2sLoop_ok_find ⟨incl, now, ttl⟩ httl ns st hok n hn
+  simp only at hexp
+  have hkeep := runForms_keeps_find_live incl ttl pk n e later now _ hfind (by omega)
+  apply s2sLoop_refuses_used _ ns2 n hn2
+  rw [stGet_of_find_live incl _ _ _ e hkeep (by show _ + dt < e.exp; omega)]
+  simp
+
+/-- non-vacuity: [x1, x2] is accepted; 14 s later [x3, x2] is refused, and so is [x1, x1] on an empty store -/
+example :
+    let pk : Pkce := ⟨"S256", fun _ => false⟩
+    (s2sLoop ⟨false, 0, todayTTL⟩ [] ["x1", "x2"]).1 = .ok ∧
+    (runForms false todayTTL pk 0 [] [(0, .token { grantType := "vp_token-bearer", assertion := some ["x1", "x2"], submission := true, scope := true, clientId := some "c" }),
+                                     (14, .token { grantType := "vp_token-bearer", assertion := some ["x3", "x2"], submission := true, scope := true, clientId := some "c" })]).1
+      = [.ok, .err "invalid_request" "presentation nonce has already been used"] ∧
+    (s2sLoop ⟨false, 0, todayTTL⟩ [] ["x1", "x1"]).1 ≠ .ok := by
+  decide
+
+/-! ### request objects, landing-page tokens, DPoP proof ids at request level -/
+
+/-- **A request object is dead after any fetch** that named it — by GET or POST, by the right or a wrong subject, with the
+    right or the wrong request_uri_method — through any later history and waiting time. -/
+theorem request_object_dead_after_any_fetch (incl : Bool) (ttl : Kind → Nat) (pk : Pkce) (now : Nat) (st : Store) (r : ReqObjFetch)
+    (later : List (Nat × Form)) (dt : Nat) (r2 : ReqObjFetch) (hid : r2.id = r.id) :
+    (handleReqObj ⟨incl, (runForms incl ttl pk now (handleReqObj ⟨incl, now, ttl⟩ st r).2 later).2.2 + dt, ttl⟩
+        (runForms incl ttl pk now (handleReqObj ⟨incl, now, ttl⟩ st r).2 later).2.1 r2).1 ≠ .ok := by
+  have h1 := handleReqObj_kills ⟨incl, now, ttl⟩ st r
+  have h2 := runForms_keeps_dead incl ttl pk (reqObjKey r.id) .reqObj rfl later now _ h1
+  apply handleReqObj_not_ok_of_dead
+  rw [hid]
+  exact stGet_none_later incl _ _ dt _ h2
+
+/-- **A landing-page token is dead after its first use**, through any later history and waiting time. -/
+theorem landing_token_dead_after_use (incl : Bool) (ttl : Kind → Nat) (pk : Pkce) (now : Nat) (st : Store) (t : String) (ht : t ≠ "")
+    (later : List (Nat × Form)) (dt : Nat) :
+    (handleLanding ⟨incl, (runForms incl ttl pk now (handleLanding ⟨incl, now, ttl⟩ st t).2 later).2.2 + dt, ttl⟩
+        (runForms incl ttl pk now (handleLanding ⟨incl, now, ttl⟩ st t).2 later).2.1 t).1 ≠ .ok := by
+  have h1 := handleLanding_kills ⟨incl, now, ttl⟩ st t ht
+  have h2 := runForms_keeps_dead incl ttl pk (redirectKey t) .redirect rfl later now _ h1
+  exact handleLanding_not_ok_of_dead _ _ t (stGet_none_later incl _ _ dt _ h2)
+
+/-- ValidateDPoPProof: a proof that is not accepted (unparsable, not matching the request, ath missing or wrong, jti used)
+    leaves the store as it was — a jti is registered only by a proof that passed every other check -/
+theorem dpop_refusal_registers_nothing (c : Sq) (st : Store) (r : DpopReq) (h : (handleDpop c st r).1 ≠ .ok) :
+    (handleDpop c st r).2 = st := handleDpop_unchanged_on_refusal c st r h
+
+/-- … and once a proof was accepted, any proof with the same jti presented less than the TTL later is refused -/
+theorem dpop_jti_replay_refused (c : Sq) (st : Store) (r r2 : DpopReq) (hj : r2.jti = r.jti) (hok : (handleDpop c st r).1 = .ok)
+    (dt : Nat) (hdt : dt < c.ttl (.mark .jti)) :
+    (handleDpop { c with now := c.now + dt } (handleDpop c st r).2 r2).1 ≠ .ok :=
+  handleDpop_replay_refused c st r r2 hj hok dt hdt
+
+example :
+    (handleReqObj ⟨true, 0, todayTTL⟩ [] ⟨"r1", "holderA", false⟩) = (.err "invalid_request" "request object not found", []) ∧
+    (gadSeq ⟨true, 0, todayTTL⟩ [(reqObjKey "r1", ⟨"holderA|get", 60⟩)] (reqObjKey "r1")) = (some "holderA|get", []) ∧
+    (handleLanding ⟨true, 0, todayTTL⟩ [(redirectKey "t1", ⟨"", 60⟩)] "t1") = (.ok, []) ∧
+    (handleDpop ⟨true, 0, todayTTL⟩ [] { jti := "j1" }).1 = .ok ∧
+    (handleDpop ⟨true, 0, todayTTL⟩ [] { jti := "j1", athOk := false }) = (.err "invalid" "ath/token claim mismatch", []) := by
+  decide
 
 end Nuts.C05.Props
